@@ -28,7 +28,7 @@ VERIF = os.path.dirname(HERE)
 CACHE = os.environ.get('OPTREE_VERIF_CACHE') or os.path.join(VERIF, '.cache')
 CLANG = 'clang++-14'
 PYBIND_INC = '/venv/lib/python3.12/site-packages/torch/include'
-IR_VERSION = '9'
+IR_VERSION = '10'
 
 CONFIGS = {
     # name: (CPython include dir, extra flags)
@@ -473,7 +473,7 @@ class _TUBuilder:
         for k in ('isArrow', 'castKind', 'ctorType', 'list', 'hasElse', 'hasInit', 'hasVar',
                   'isPostfix', 'init', 'storageClass', 'constexpr', 'isConstexpr',
                   'conversionFunc', 'nrvo', 'isImplicit', 'field',
-                  'computeLHSType', 'hasExplicitTemplateArgs', 'foundReferencedDecl',
+                  'computeLHSType', 'hasExplicitTemplateArgs', 'foundReferencedDecl', 'tls',
                   'explicitlyDefaulted'):
             if k in d:
                 if n.x is None:
